@@ -100,6 +100,10 @@ type scriptedServer struct {
 
 func newScripted(script []string, body []byte) *scriptedServer {
 	l, err := net.Listen("tcp", "127.0.0.1:0")
+	for try := 0; err != nil && try < 100; try++ { // ephemeral ports can run out for a moment on a busy machine
+		time.Sleep(100 * time.Millisecond)
+		l, err = net.Listen("tcp", "127.0.0.1:0")
+	}
 	dsu.Must(err)
 	s := &scriptedServer{l: l, script: script, body200: body}
 	go func() {
@@ -638,6 +642,32 @@ func indexes(c *harness.Ctx) {
 	if st := head("a.caibx"); st != 200 {
 		c.Violation("index-head-present:"+shape, "HEAD of a present index answered %d", st)
 		return
+	}
+	// an index server in front of an upstream that FAILS (500 / 403 on everything): neither GET nor HEAD may call
+	// that "missing"
+	if shape != "cli" {
+		code := []int{500, 403, 503}[rng.Intn(3)]
+		bad := httptest.NewServer(http.HandlerFunc(func(w http.ResponseWriter, r *http.Request) { http.Error(w, "upstream trouble", code) }))
+		defer bad.Close()
+		ub, _ := url.Parse(bad.URL + "/")
+		upstream, _ := desync.NewRemoteHTTPIndexStore(ub, desync.StoreOptions{ErrorRetry: 1, ErrorRetryBaseInterval: time.Millisecond})
+		front := httptest.NewServer(desync.NewHTTPIndexHandler(upstream, false, ""))
+		defer front.Close()
+		uf, _ := url.Parse(front.URL + "/")
+		fc, _ := desync.NewRemoteHTTPIndexStore(uf, desync.StoreOptions{ErrorRetry: 1, ErrorRetryBaseInterval: time.Millisecond})
+		_, gerr := fc.GetIndex("a.caibx")
+		if _, missing := gerr.(desync.NoSuchObject); missing || gerr == nil {
+			c.Violation("failure-reported-as-missing:index-proxy", "index server in front of an upstream answering %d: GetIndex returned %v", code, gerr)
+			return
+		}
+		if resp, herr := http.Head(front.URL + "/a.caibx"); herr == nil {
+			resp.Body.Close()
+			if resp.StatusCode == 404 || resp.StatusCode == 200 {
+				c.Violation("failure-reported-as-missing:index-proxy-head", "index server in front of an upstream answering %d answered HEAD with %d", code, resp.StatusCode)
+				return
+			}
+		}
+		c.Count("failing_upstream_probes", 1)
 	}
 	c.Count("index_roundtrips", 1)
 	c.NonTrivial("index|%s|%d", shape, min(len(idx.Chunks)/40, 3))
